@@ -681,11 +681,21 @@ func (t *c12Ctx) firstCall(kk *stats.KDE, mbmin, mbmax float64, op string, x flo
 		t.bad("panic", fmt.Sprintf("%sfirst call %s with zero Bandwidth panicked: %v", what, op, e))
 		return 0, false
 	}
-	if !w.Err("zero-bandwidth=Scott", math.Abs(kk.Bandwidth-info.Scott), c12BWTol(info.Scott, len(t.xs), info.MaxAbs)) {
-		t.bad("zero-bandwidth", fmt.Sprintf("%safter the first call (%s) Bandwidth=%.17g, Scott's rule gives %.17g (s=%.17g, IQR=%.17g)", what, op, kk.Bandwidth, info.Scott, info.SD, info.IQR))
-		return 0, false
+	// The statement asks that a zero Bandwidth SELECTS Scott's rule, i.e.
+	// that the values are those of the model at that bandwidth. Storing the
+	// selected bandwidth in the field is permitted (the documented lazy
+	// fill), not required: a field left at zero is accepted, a field that was
+	// filled must hold Scott's value.
+	if kk.Bandwidth == 0 && info.Scott != 0 {
+		w.Note("zero-bandwidth-field-left-zero")
+		h = info.Scott
+	} else {
+		if !w.Err("zero-bandwidth=Scott", math.Abs(kk.Bandwidth-info.Scott), c12BWTol(info.Scott, len(t.xs), info.MaxAbs)) {
+			t.bad("zero-bandwidth", fmt.Sprintf("%safter the first call (%s) Bandwidth=%.17g, Scott's rule gives %.17g (s=%.17g, IQR=%.17g)", what, op, kk.Bandwidth, info.Scott, info.SD, info.IQR))
+			return 0, false
+		}
+		h = kk.Bandwidth
 	}
-	h = kk.Bandwidth
 	m := ref.NewKDEModel(t.xs, t.ws, t.c.Kernel, h, mbmin, mbmax)
 	// the context of the value: the boundaries of kk (those of the phase, or
 	// none for the unbounded twin)
